@@ -542,3 +542,71 @@ def memory_family(seed, quick):
 
 def natural_align_of(op):
     return natural_align(op)
+
+
+# ====================================================================== C06 instantiation
+def instantiation_family(seed, quick):
+    out = []
+    rng = random.Random(seed + 606)
+    hostf = Import('env', 'note', 'func', ([I32], []))
+    combos = []
+    for memk in ('none', 'def', 'imp'):
+        for tabk in ('none', 'def', 'imp'):
+            for startk in (False, True):
+                for ninst in (1, 2):
+                    combos.append((memk, tabk, startk, ninst))
+    for ci, (memk, tabk, startk, ninst) in enumerate(combos):
+        if quick and ci % 2 != (seed % 2) and not (memk == 'imp' and startk):
+            continue
+        variant = ci % 3
+        imports = [hostf]
+        if memk == 'imp':
+            imports.append(Import('env', 'mem', 'memory', (1, 2)))
+        if tabk == 'imp':
+            imports.append(Import('env', 'tab', 'table', (5, 6)))
+        imports.append(Import('env', 'gi', 'global', (I32, False)))
+        imports.append(Import('env', 'gj', 'global', (I64, True)))
+        # globals: indices 0,1 imported; defined from 2
+        globs = [Global(I32, True, ('i32.const', 7 + ci)), Global(I32, False, ('global.get', 0)),
+                 Global(I64, True, ('i64.const', 0x8000000000000000 + ci)), Global(F32, False, ('f32.const', 0x7FA00000)),
+                 Global(F64, True, ('f64.const', 0xFFF0000000000001))][:2 + variant + 1]
+        has_cnt = True  # global 2 (i32 mutable) is the call/start counter
+        funcs = []
+        # function 1: start (increments g2, notes g2)
+        startf = Func([], [], [], [('global.get', 2), ('i32.const', 1), ('i32.add',), ('global.set', 2), ('global.get', 2), ('call', 0)])
+        # function 2: bump(x): g2 += x ; returns g2
+        bump = Func([I32], [I32], [], [('global.get', 2), ('local.get', 0), ('i32.add',), ('global.set', 2), ('global.get', 2)])
+        # function 3: peek(addr) -> i64 load (if memory) else g1 extended
+        if memk != 'none':
+            peek = Func([I32], [I64], [], [('local.get', 0), ('i64.load', 0, 0)])
+            poke = Func([I32, I32], [], [], [('local.get', 0), ('local.get', 1), ('i32.store8', 0, 0)])
+        else:
+            peek = Func([I32], [I64], [], [('global.get', 3), ('i64.extend_i32_u',), ('local.get', 0), ('i64.extend_i32_u',), ('i64.add',)])
+            poke = Func([I32, I32], [], [], [('local.get', 1), ('global.set', 2)])
+        setj = Func([I64], [], [], [('local.get', 0), ('global.set', 1)])
+        funcs = [startf, bump, peek, poke, setj]
+        exports = [('bump', 'func', 2), ('peek', 'func', 3), ('poke', 'func', 4), ('setj', 'func', 5)]
+        if memk != 'none':
+            exports.append(('memory', 'memory', 0))
+        datas = []
+        if memk != 'none':
+            datas = [Data(('i32.const', 2), b'\x11\x22\x33\x44'), Data(('global.get', 0), b'\xA1\xA2\xA3'),
+                     Data(('i32.const', 4), b'\x55\x66'), Data(('i32.const', 9), b''),
+                     Data(None, b'\x99\x98', passive=True)][:2 + variant + (1 if variant == 2 else 0)]
+            if variant == 1:
+                datas[0].flag2 = True
+        elems = []
+        tables = []
+        if tabk != 'none':
+            if tabk == 'def':
+                tables = [(5, 6)]
+            elems = [Elem(('i32.const', 1), [2, 3]), Elem(('global.get', 0), [0, 1])][:1 + (variant % 2)]
+        m = Module(imports=imports, funcs=funcs, tables=tables, mems=[(1, 2)] if memk == 'def' else [], globals=globs,
+                   exports=exports, start=1 if startk else None, elems=elems, datas=datas, datacount=any(d.passive for d in datas))
+        if ninst == 1:
+            script = [{'call': 'bump'}, {'call': 'poke'}, {'call': 'peek'}]
+        else:
+            script = [{'call': 'bump', 'inst': 0}, {'call': 'poke', 'inst': 1}, {'call': 'setj', 'inst': 0}, {'call': 'peek', 'inst': 0}, {'call': 'bump', 'inst': 1}]
+        hk = {'n_inst': ninst, 'tab_slots': 5, 'max_host_calls': 4}
+        out.append(('inst_mem%s_tab%s_start%d_n%d_v%d' % (memk, tabk, int(startk), ninst, variant), m, script, hk))
+    return out
